@@ -176,8 +176,11 @@ class Auer(PALAlgorithm):
                     to_be_discarded.append(pt)
                     break
 
+        # Rows of beta_t follow the enumeration of S; keep them aligned once S shrinks.
+        kept_rows = [pt not in to_be_discarded for pt in self.S]
         for pt in to_be_discarded:
             self.S.remove(pt)
+        self.beta_t = self.beta_t[kept_rows]
 
     def pareto_updating(self):
         """
